@@ -32,6 +32,16 @@ func init() {
 		json.Unmarshal(raw, &cs)
 		return c11Format(string(cs.F), cs.A)
 	}
+	replayers["C11/universe"] = func(c *Ctx, raw json.RawMessage) string {
+		var cs struct {
+			D Directive
+			V int
+		}
+		json.Unmarshal(raw, &cs)
+		f, stars := cs.D.Format()
+		u := universe()
+		return c11Universe(f, stars, &u[cs.V])
+	}
 	replayers["C11/joinTo"] = func(c *Ctx, raw json.RawMessage) string {
 		var cs struct{ V, W, D int }
 		json.Unmarshal(raw, &cs)
@@ -126,6 +136,37 @@ func c11Format(f string, ai int) string {
 	}
 	if pv, pan := recoverTo(func() { redact.HelperForErrorf(f, args...) }); pan {
 		return fmt.Sprintf("HelperForErrorf(%q, %v) panics: %v", f, args, pv)
+	}
+	return ""
+}
+
+func c11Universe(f string, stars []interface{}, v *Val) string {
+	x := v.Mk(0)
+	args := append(append([]interface{}{}, stars...), x)
+	_, panF := recoverTo(func() { fmt.Sprintf(f, args...) })
+	if panF {
+		return "" // fmt panics too (double panic): propagation is allowed
+	}
+	_, panV := recoverTo(func() { fmt.Sprint(x) })
+	type ep struct {
+		name string
+		run  func()
+	}
+	eps := []ep{
+		{"Sprintf", func() { redact.Sprintf(f, args...) }},
+		{"StringBuilder.Printf", func() { var b redact.StringBuilder; b.UnsafeString("kept"); b.Printf(f, args...) }},
+		{"Sprintf(Safe(v))", func() { redact.Sprintf(f, append(append([]interface{}{}, stars...), redact.Safe(x))...) }},
+		{"Sprintf(Unsafe(v))", func() { redact.Sprintf(f, append(append([]interface{}{}, stars...), redact.Unsafe(x))...) }},
+		{"JoinTo", func() { var b redact.StringBuilder; redact.JoinTo(&b, ",", []interface{}{x, x}) }},
+		{"Sprintfn→Print", func() { redact.Sprintfn(func(p redact.SafePrinter) { p.SafeString("pre"); p.Print(x) }) }},
+	}
+	for _, e := range eps {
+		if panV && (e.name == "JoinTo" || e.name == "Sprintfn→Print") {
+			continue // these print with %v, under which fmt panics too
+		}
+		if pv, pan := recoverTo(e.run); pan {
+			return fmt.Sprintf("%s(%q, %s) panics (%v) although fmt prints the value without panicking", e.name, f, v.Name, pv)
+		}
 	}
 	return ""
 }
@@ -481,6 +522,20 @@ func checkC11(c *Ctx) {
 		}
 	})
 	replayers["C11/formats-2byte"] = replayers["C11/formats"]
+	// (c') every value of the universe under every quick directive: a call may panic only if fmt panics too
+	u := universe()
+	dsp := quickDirectives()
+	c.Section("C11/universe", map[string]interface{}{"directives": dsp.Size(), "values": len(u), "entry_points": "Sprintf, StringBuilder.Printf, Sprint(Safe(v)), Sprint(Unsafe(v)), JoinTo([]interface{}{v})"}, dsp.Size(), func(i int, w *Worker) {
+		d := dsp.Get(i)
+		f, stars := d.Format()
+		for vi := range u {
+			w.Eval()
+			if dt := c11Universe(f, stars, &u[vi]); dt != "" {
+				w.Fail("universe:"+u[vi].Name, map[string]interface{}{"D": d, "V": vi}, dt)
+			}
+		}
+		w.Seen(uint64(i))
+	})
 	// (d) JoinTo
 	c.Section("C11/joinTo", map[string]interface{}{"operands": len(joinVals), "writers": "StringBuilder, Sprintfn printer, SafeFormat printer", "delimiters": len(joinDelims)}, len(joinVals)*3*len(joinDelims), func(i int, w *Worker) {
 		di := i % len(joinDelims)
